@@ -985,6 +985,9 @@ DISCRS = {
     "mixed": lambda n: [None, 10, None, 3][:n],
     "i64": lambda n: [-5000000000, None, 5000000000, None][:n],
     "imin": lambda n: [-128, None, 127, None][:n],
+    # negative literals whose absolute values increase in declaration order while the values themselves do not
+    "errno": lambda n: [-1, -2, -5, -9][:n],
+    "posneg": lambda n: [5, -10, None, None][:n],
 }
 
 
@@ -1061,7 +1064,8 @@ def c04(tier, seed):
     # (A) generic payloads: layout-independent Verus proof + u8 twin; discriminant configs x reprs
     reprs_for = {"implicit": [None, "u8", "i8", "C", "u16", "i32", "isize"], "five": [None, "u8", "i16"], "neg": [None, "i8", "i32"], "neg3": ["i16", "i64"],
                  "b127": [None, "i8", "u8"], "b128": [None, "u8", "i16"], "b200": [None, "u8", "i32"], "b255": [None, "u8"], "k1000": [None, "u16", "i32"],
-                 "nonmono": [None, "i8", "i32"], "mixed": [None, "u8"], "i64": [None, "i64"], "imin": [None, "i8"]}
+                 "nonmono": [None, "i8", "i32"], "mixed": [None, "u8"], "i64": [None, "i64"], "imin": [None, "i8"],
+                 "errno": [None, "i8", "i32"], "posneg": [None, "i8", "i16"]}
     shapes = [("none", "none", "none"), ("gen", "none", "gen"), ("none", "gen"), ("gen",), ("gen", "gen", "none", "gen"), ("none", "none"), ("none", "none", "none", "none")]
     for dname, reprs in reprs_for.items():
         for repr_ in reprs:
@@ -1087,7 +1091,7 @@ def c04(tier, seed):
                 if repr_ in (None, "C") and not fits(vals, "isize"):
                     continue
                 form += 1
-                if tier == "quick" and form % 3 != 0 and dname not in ("b128", "nonmono", "b255"):
+                if tier == "quick" and form % 3 != 0 and dname not in ("b128", "nonmono", "b255", "errno", "posneg"):
                     continue
                 md = "both" if form % 2 == 0 else "po"
                 out.append(layout_enum(c.pid(), sh, dname, repr_, md))
@@ -1618,7 +1622,9 @@ def c14(tier, seed):
     # variant level name forms in an enum
     for j, vsp in enumerate(["Debug = Vv", 'Debug = "Vv"', "Debug(name = Vv)", "Debug(name(Vv))", "Debug(rename = Vv)", 'Debug(rename("Vv"))',
                              "Debug = r#loop", 'Debug = "r#loop"', "Debug(name = r#loop)", "Debug(name(r#loop))", 'Debug(rename("r#loop"))']):
-        for tsp, tn in (("Debug", "default"), ("Debug(name = true)", True), ("Debug(name(true))", True)):
+        for tsp, tn in (("Debug", "default"), ("Debug(name = true)", True), ("Debug(name(true))", True), ("Debug(rename = true)", True), ("Debug(rename(true))", True)):
+            if "rename" in tsp and j % 3 != 1:
+                continue
             vn = "r#loop" if "r#loop" in vsp else "Vv"
             wn = "r#mod" if vn == "r#loop" else "Ww"
             if vn == "r#loop" and tn is True and tsp.endswith("(true))"):
@@ -2352,6 +2358,42 @@ def wide(prop):
         P = Program(pid(), "struct", "S", [Variant(None, "tuple", fsw)], ["Deref", "DerefMut"], focus={"Deref", "DerefMut"}, note="wide: 258-field tuple struct, Deref/DerefMut field at position 256")
         P.tags["no_verus"] = "258 fields: decided by Kani on the concrete layout"
         out.append(P)
+
+    # two-digit positions inside an ENUM tuple variant (bindings _10, _11 sort before _2 as text), and an enum whose LAST
+    # non-unit variant has no compared field at all (empty or fully ignored) after variants that do have some
+    if prop == "C05":
+        out.append(Program(pid(), "enum", "E", [Variant("V0", "unit", []), Variant("V1", "tuple", wide_tuple("hash", "Hash", HASH_METHODS, 12))], ["Hash"], focus={"Hash"},
+                           note="wide: 12-field tuple variant"))
+    if prop == "C07":
+        fs = [Field(None, "u8", attrs=(["Clone(method = crate::m::clone_a)"] if i in (3, 10) else []), clone={"method": "crate::m::clone_a" if i in (3, 10) else None}) for i in range(12)]
+        out.append(clone_program(pid(), "enum", "E", [Variant("V0", "unit", []), Variant("V1", "tuple", fs)], [], False, "wide: 12-field tuple variant", 1))
+    if prop == "C03":
+        for md in ("both", "po"):
+            car = "Ord" if md == "both" else "PartialOrd"
+            meths = ["crate::m::cmp_a", "crate::m::cmp_b"] if md == "both" else ["crate::m::pcmp_a", "crate::m::pcmp_b"]
+            out.append(ord_program(pid(), "enum", "E", [Variant("V0", "unit", []), Variant("V1", "tuple", wide_tuple("ord", car, meths, 12))], md, [], 0,
+                                   "wide: 12-field tuple variant mode=%s" % md))
+            for last in ("empty_tuple", "empty_named", "ignored"):
+                lv = {"empty_tuple": Variant("V2", "tuple", []), "empty_named": Variant("V2", "named", []),
+                      "ignored": Variant("V2", "tuple", [Field(None, "u8", attrs=["%s(ignore)" % car], ord={"ignore": True}), Field(None, "u8", attrs=["%s = false" % car], ord={"ignore": True})])}[last]
+                vs = [Variant("V0", "tuple", [Field(None, "u8", ord={}), Field(None, "u8", ord={})]), Variant("V1", "named", [Field("a", "u8", ord={})]), lv, Variant("V3", "unit", [])]
+                out.append(ord_program(pid(), "enum", "E", vs, md, [], 0, "wide: last non-unit variant without a compared field (%s) mode=%s" % (last, md)))
+    if prop == "C02":
+        for last in ("empty_tuple", "ignored"):
+            lv = {"empty_tuple": Variant("V2", "tuple", []),
+                  "ignored": Variant("V2", "named", [Field("a", "u8", attrs=["PartialEq(ignore)"], eq={"ignore": True})])}[last]
+            vs = [Variant("V0", "tuple", [Field(None, "u8", eq={}), Field(None, "u8", eq={})]), Variant("V1", "named", [Field("a", "u8", eq={})]), lv, Variant("V3", "unit", [])]
+            out.append(Program(pid(), "enum", "E", vs, ["PartialEq"], focus={"PartialEq"}, note="wide: last non-unit variant without a compared field (%s)" % last))
+        # every compared field of the whole enum goes through a custom method (no field type gets an automatic bound)
+        vs = [Variant("V0", "tuple", [Field(None, "u8", attrs=["PartialEq(method = crate::m::eq_a)"], eq={"method": "crate::m::eq_a"})]),
+              Variant("V1", "named", [Field("a", "u8", attrs=["PartialEq(method = crate::m::eq_b)"], eq={"method": "crate::m::eq_b"}), Field("b", "u16", attrs=["PartialEq(ignore)"], eq={"ignore": True})]),
+              Variant("V2", "unit", [])]
+        out.append(Program(pid(), "enum", "E", vs, ["PartialEq"], focus={"PartialEq"}, note="wide: every compared field of the enum uses a method"))
+    if prop == "C05":
+        vs = [Variant("V0", "tuple", [Field(None, "u8", attrs=["Hash(method = crate::m::hash_a)"], hash={"method": "crate::m::hash_a"})]),
+              Variant("V1", "named", [Field("a", "u8", attrs=["Hash(method = crate::m::hash_b)"], hash={"method": "crate::m::hash_b"}), Field("b", "u16", attrs=["Hash(ignore)"], hash={"ignore": True})]),
+              Variant("V2", "unit", [])]
+        out.append(Program(pid(), "enum", "E", vs, ["Hash"], focus={"Hash"}, note="wide: every hashed field of the enum uses a method"))
 
     return out
 
